@@ -397,11 +397,7 @@ fn main() {
 
     // Vacuity: the three branches of Storage::clean must have been taken.
     let seen = |needle: &str| st.outcomes.iter().any(|(k, v)| k.contains(needle) && *v > 0);
-    for must in ["repository-removed", "kept:removed-namespaces=0", "kept:removed-namespaces=2"] {
-        if !seen(must) {
-            machinery(&format!("C28: vacuity alarm: outcome {must} never observed"));
-        }
-    }
+    let vacuous: Vec<&str> = ["repository-removed", "kept:removed-namespaces=0", "kept:removed-namespaces=2"].into_iter().filter(|must| !seen(must)).collect();
 
     let samples: Vec<Value> = sweep::sample_indexes(n).into_iter().map(|i| space.decode(i).to_json()).collect();
     let mut cov = st.coverage(
@@ -414,6 +410,9 @@ fn main() {
     cov.insert("local_states".into(), json!(space.local_states.iter().map(|s| s.name()).collect::<Vec<_>>()));
     let violations = std::mem::take(&mut st.violations);
     drop(root);
+    if violations.is_empty() && !vacuous.is_empty() {
+        machinery(&format!("C28: vacuity alarm: outcome(s) {vacuous:?} never observed"));
+    }
     ctx.finish(
         cov,
         &[
